@@ -90,3 +90,12 @@ pub fn point(name: &str) {
 pub fn normalize_for_matching(path: &std::path::Path) -> std::path::PathBuf {
     crate::output::path::normalize_for_matching(path)
 }
+
+/// Re-export of the crate-private scan-root resolution (tie for the multi-root structure model).
+#[must_use]
+pub fn resolve_scan_paths(
+    paths: &[std::path::PathBuf],
+    include: &[String],
+) -> Vec<std::path::PathBuf> {
+    crate::commands::context::resolve_scan_paths(paths, include)
+}
